@@ -38,10 +38,22 @@ import (
 
 // ---------------------------------------------------------------- history records
 
-type vRec struct {
-	G int `json:"g"`
-	V int `json:"v"`
-	S int `json:"s"`
+// vRec is printed by GossipGen as [g, v, s] (records) or [g, v] (digests).
+type vRec struct{ G, V, S int }
+
+func (r *vRec) UnmarshalJSON(b []byte) error {
+	var a []int
+	if err := json.Unmarshal(b, &a); err != nil {
+		return err
+	}
+	if len(a) < 2 || len(a) > 3 {
+		return fmt.Errorf("bad record %s", b)
+	}
+	r.G, r.V, r.S = a[0], a[1], 0
+	if len(a) == 3 {
+		r.S = a[2]
+	}
+	return nil
 }
 
 // vMap is a partial function member -> record; TLC prints the empty function as [].
@@ -62,8 +74,6 @@ func (m *vMap) UnmarshalJSON(b []byte) error {
 
 type vMsg struct {
 	Type  string `json:"type"`
-	From  string `json:"from"`
-	To    string `json:"to"`
 	Digs  vMap   `json:"digs"`
 	Nodes vMap   `json:"nodes"`
 }
@@ -76,7 +86,6 @@ type vStep struct {
 	M    vMsg            `json:"m"`
 	St   map[string]vMap `json:"st"`
 	Conv bool            `json:"conv"`
-	Done bool            `json:"done"`
 }
 
 type vResult struct {
@@ -657,18 +666,35 @@ func vReplay(hist []vStep, stats *vStats) (out vResult) {
 			stats.ConvChecks++
 			ok := true
 			detail := ""
-			zero := false
-			for _, n := range c.names {
-				if r := cur[n][n]; r.G == 0 && r.V == 0 {
-					zero = true
+			// window: every discrepancy is "n lacks member k" where the most advanced
+			// record of k held anywhere (its owner's included) still has heartbeat (0,0);
+			// a member held at different heartbeats or states is never the window
+			window := true
+			for _, k := range c.names {
+				best := cur[k][k]
+				for _, n := range c.names {
+					if r, has := cur[n][k]; has && vAdv(r, best) {
+						best = r
+					}
+				}
+				for _, n := range c.names {
+					r, has := cur[n][k]
+					switch {
+					case !has:
+						ok = false
+						if best.G != 0 || best.V != 0 {
+							window = false
+						}
+					case r != best:
+						ok = false
+						window = false
+					}
 				}
 			}
-			for _, n := range c.names {
-				if len(cur[n]) != len(c.names) || !vEqMap(cur[n], cur[c.names[0]]) {
-					ok = false
-					detail = vFmtViews(cur)
-				}
+			if !ok {
+				detail = vFmtViews(cur)
 			}
+			zero := window
 			if ok {
 				stats.ConvHeld++
 			} else {
